@@ -4,6 +4,7 @@ import (
 	"fmt"
 	"go/token"
 	"go/types"
+	"os"
 	"strings"
 
 	"golang.org/x/tools/go/ssa"
@@ -54,6 +55,11 @@ func runC19(r *Run) {
 	c19Sig(r)
 	c19HTTP(r)
 	c19Config(r)
+	if os.Getenv("C19_OBLS") != "" { // dev: list the obligations with their details
+		for _, o := range r.Obls {
+			fmt.Fprintf(os.Stderr, "%v %s @%s: %s\n", o.OK, o.Key, o.Where, o.Detail)
+		}
+	}
 }
 
 func c19InWitnessTree(fn string) bool { return strings.Contains(fn, "internal/witness/") }
@@ -117,12 +123,10 @@ func c19Who(r *Run) {
 	if !okRead {
 		r.Check("sql-read@getLatestSTH:found", false, "-", "undecided: the SELECT of getLatestSTH was not found")
 	}
-	r.ExpectCallers("who:setSTH", c19Set, c19Wit+".Update")
-	if cs := r.CallersOf(c19Set)[c19Wit+".Update"]; len(cs) != 2 {
-		r.Fail("who:setSTH.sites", "-", fmt.Sprintf("Update calls setSTH at %d sites (first use and verified extension expected)", len(cs)))
-	} else {
-		r.Pass("who:setSTH.sites", r.Where(cs[0]), "Update calls setSTH at 2 sites")
-	}
+	// the row is written only inside Update's decision procedure: by Update itself or by a function
+	// literal of Update that is called where it is written (what a helper with a deferred call
+	// becomes); WHEN each of those sites may execute is decided by R2's table (rules_t8c19.go)
+	c19WhoStores(r)
 	commits := r.CallersOf("(*sql.Tx).Commit")
 	n := 0
 	for _, fn := range keysOf(commits) {
@@ -162,15 +166,7 @@ func c19Who(r *Run) {
 			}
 			commit := asInstrs(CallsTo(fn, "(*sql.Tx).Commit"))
 			r.FailEdge(fn, "setSTH", EdgeSpec{Name: "exec-failed", Atom: nilAtom("(*sql.Tx).Exec*(*)#1"), Bad: "non", Want: wantErr(false), Unreach: commit})
-			okc := false
-			for _, ret := range Returns(fn) {
-				if d := r.D.D(RetVals(ret)[0]); d == "(*sql.Tx).Commit(p1)" {
-					okc = true
-				} else if errKind(RetVals(ret)[0]) != "non" {
-					r.Fail("setSTH:returns", r.Where(ret), "returns "+d+" (must be the Exec failure or Commit's result)")
-				}
-			}
-			r.Check("setSTH:commit-result", okc && len(commit) == 1, r.FnPos(fn), "setSTH returns the result of tx.Commit() on the transaction it wrote through")
+			c19SetSTHResult(r, fn, commit)
 		}
 	}
 }
